@@ -70,6 +70,41 @@ def list_field(v):
     return [x for x in v.split(',') if x != '']
 
 
+def qos0_partial(a):
+    """a publish() whose last, unflushed stretch of writes is the beginning of a QoS 0 PUBLISH (written straight from a
+    temporary buffer; the request may have asked for more and been downgraded)"""
+    tail = bytearray()
+    for e in a.events:
+        if e[0] == 'f' and e[1] == 'ok':
+            tail = bytearray()
+        elif e[0] == 'w' and e[2]:
+            tail += bytes.fromhex(e[3])
+    return bool(tail) and (tail[0] & 0xF6) == 0x30
+
+
+def garbles(a, prev=None):
+    """the action leaves the outbound stream of its transport undecodable from here on, for a reason that belongs to
+    another property's account: a QoS 0 publish whose future was dropped (or whose transport returned Ok(0)) after
+    some of its bytes had been accepted (documented as not cancel-safe: excluded by the property texts), or the two
+    recorded defects of disconnect() (C01 K01b: its DISCONNECT written inside a half-written packet; K01c / C13 K13d:
+    its future dropped after bytes were accepted).  Monitors of other properties stop decoding that transport there."""
+    wrote = any(e[0] == 'w' and e[2] for e in a.events)
+    if not wrote:
+        return False
+    if a.code == 1 and (a.result == 'cancelled' or (a.result or '').startswith('err WriteZero')) and qos0_partial(a):
+        return True
+    if a.code == 4:
+        if a.result == 'cancelled':
+            return True
+        if prev:
+            for key in ('ret', 'ctl', 'rel'):
+                for x in list_field(prev.get(key, '[]')):
+                    parts = x.split(':')
+                    if any(p.startswith('W') and p[1:].isdigit() and int(p[1:]) > 0 for p in parts):
+                        return True
+    return False
+
+
 def connections(actions):
     """split the actions into connections: list of dicts {start, actions, wire(bytes), reads(bytes), connack_ok}"""
     conns = []
@@ -80,8 +115,12 @@ def connections(actions):
             conns.append(cur)
         if cur is not None:
             cur['actions'].append(i)
+            if garbles(a, actions[i - 1].state if i > 0 else None):
+                # a QoS 0 publish dropped in the middle of its packet (documented as not cancel-safe): from here on the
+                # stream of this transport cannot be decoded by anybody; it ends before the partial packet
+                cur['garbled'] = True
             for e in a.events:
-                if e[0] == 'w' and e[2]:
+                if e[0] == 'w' and e[2] and not cur.get('garbled'):
                     cur['wire'] += bytes.fromhex(e[3])
                 if e[0] == 'r' and e[2]:
                     cur['inbound'] += bytes.fromhex(e[3])
